@@ -1,1 +1,227 @@
-/- C18: property theorems (not yet built). -/
+/- C18 — interned strings stay canonical (interner half of the property; the collector half is
+   observed, not proved — see checks/props/C18.py).
+   Property theorems only; helper lemmas live in Proofs/Intern.lean.
+
+   Setting: `step` is the Rust protocol as coded (pool lookup by contents, `Inner::clone`,
+   `maybe_unpool` with the extracted threshold, `Inner::drop` freeing at zero, the casts cloning
+   before the consumed value drops); `none` = panic / use after free.  `Spec.step` is the client's
+   view (a list of values with contents).  `abs` forgets addresses and counts. -/
+import JrsVerif.Proofs.Intern
+import JrsVerif.Model.TraceGraph
+
+namespace JrsVerif.Intern
+open JrsVerif.Generated
+
+/-- C18.1 (`inv_preserved` + `no_double_free`): from a state satisfying the invariant, every
+    operation the Rust types allow runs without panic, refcount underflow/overflow or access to a
+    freed block, re-establishes the invariant, and is the reference operation on the client's view. -/
+theorem step_ok {s : St} (h : Inv s) (hs : Small s) (op : Op) (hv : op.valid s = true) :
+    ∃ s', step s op = some s' ∧ Inv s' ∧ Spec.step (abs s) op = some (abs s') := by
+  cases op with
+  | internBytes b =>
+    refine ⟨_, step_internBytes h hs b, ?_⟩
+    cases e : lookup s b with
+    | some q =>
+      have ⟨hq, hd⟩ := lookup_some e
+      exact ⟨inv_addH h q .bytes false hq (by simp) (by simp), by simp [Spec.step, abs_addH, hd]⟩
+    | none =>
+      exact ⟨inv_newH h b .bytes false (lookup_none e) (by simp) (by simp),
+        by simp [Spec.step, abs_newH h]⟩
+  | internStr b =>
+    have hb : validUtf8 b = true := hv
+    refine ⟨_, step_internStr h hs b, ?_⟩
+    cases e : lookup s b with
+    | some q =>
+      have ⟨hq, hd⟩ := lookup_some e
+      exact ⟨inv_addH h q .str true hq (fun _ => hd ▸ hb) (fun _ => Or.inl rfl),
+        by simp [Spec.step, abs_addH, hd]⟩
+    | none =>
+      exact ⟨inv_newH h b .str true (lookup_none e) (fun _ => hb) (fun _ => rfl),
+        by simp [Spec.step, abs_newH h]⟩
+  | clone i =>
+    have hi : i < s.hs.length := by simpa [Op.valid] using hv
+    obtain ⟨⟨p, k⟩, hg⟩ : ∃ g, s.hs[i]? = some g := ⟨_, List.getElem?_eq_getElem hi⟩
+    refine ⟨_, step_clone h hs hg, inv_addH h p k false (h.hs_pool _ (mem_of_getElem? hg)) (by simp) ?_, ?_⟩
+    · intro e; subst e; exact Or.inr (h.str_utf8 _ (mem_of_getElem? hg) rfl)
+    · simp [Spec.step, abs_getElem?, hg, abs_addH]
+  | drop i =>
+    have hi : i < s.hs.length := by simpa [Op.valid] using hv
+    obtain ⟨⟨p, k⟩, hg⟩ : ∃ g, s.hs[i]? = some g := ⟨_, List.getElem?_eq_getElem hi⟩
+    refine ⟨_, step_drop h hg, ?_, ?_⟩
+    · split
+      · next e => exact inv_delLast h i p k hg e
+      · next e =>
+        have := h.has_handle p (h.hs_pool _ (mem_of_getElem? hg))
+        exact inv_delMore h i p k hg (by omega)
+    · simp only [Spec.step, abs_getElem?, hg, Option.map_some]
+      split <;> simp [abs_delLast, abs_delMore]
+  | castBytes i =>
+    obtain ⟨p, hg⟩ : ∃ p, s.hs[i]? = some (p, .str) := by
+      simp only [Op.valid] at hv
+      split at hv
+      · next p e => exact ⟨p, e⟩
+      · simp at hv
+    refine ⟨_, step_castBytes h hs hg, inv_setK h i p .str .bytes false hg (by simp) (by simp), ?_⟩
+    simp [Spec.step, abs_getElem?, hg, abs_setK]
+  | castStr i =>
+    obtain ⟨p, hg⟩ : ∃ p, s.hs[i]? = some (p, .bytes) := by
+      simp only [Op.valid] at hv
+      split at hv
+      · next p e => exact ⟨p, e⟩
+      · simp at hv
+    have hp : p ∈ s.pool := h.hs_pool _ (mem_of_getElem? hg)
+    refine ⟨_, step_castStr h hs hg, ?_, ?_⟩
+    · split
+      · next e =>
+        refine inv_setK h i p .bytes .str _ hg (fun _ => e) (fun _ => ?_)
+        cases (s.heap p).utf8 <;> simp
+      · split
+        · next e => exact inv_delLast h i p .bytes hg e
+        · next e =>
+          have := h.has_handle p hp
+          exact inv_delMore h i p .bytes hg (by omega)
+    · simp only [Spec.step, abs_getElem?, hg, Option.map_some]
+      split
+      · simp [abs_setK]
+      · split <;> simp [abs_delLast, abs_delMore]
+  | handover =>
+    exact ⟨s, step_handover s, h, rfl⟩
+
+/-- well-typed client histories: indices of live values of the right static type (this is what
+    `Spec.run` succeeding means) and `&str` arguments that are UTF-8 -/
+def StrArgsOk (ops : List Op) : Prop := ∀ b, Op.internStr b ∈ ops → validUtf8 b = true
+
+/-- C18.2 (`reachable_inv`, refinement over whole histories): for every well-typed history — of any
+    length below the 2^31 reference-count capacity — the coded protocol never panics, ends in a
+    state satisfying the invariant, and the client's view of that state is exactly what the
+    reference semantics computes. -/
+theorem run_refines (ops : List Op) : ∀ (s : St), Inv s → s.hs.length + ops.length + 3 ≤ REFCNT_MAX →
+    StrArgsOk ops → ∀ a, Spec.run (abs s) ops = some a →
+    ∃ s', run s ops = some s' ∧ Inv s' ∧ abs s' = a := by
+  induction ops with
+  | nil =>
+    intro s h _ _ a ha
+    simp only [Spec.run, Option.some.injEq] at ha
+    exact ⟨s, rfl, h, ha⟩
+  | cons op ops ih =>
+    intro s h hb hstr a ha
+    simp only [Spec.run] at ha
+    cases hsp : Spec.step (abs s) op with
+    | none => simp [hsp] at ha
+    | some a1 =>
+      rw [hsp, Option.bind_some] at ha
+      have hv : op.valid s = true :=
+        valid_of_spec hsp (fun b e => hstr b (e ▸ List.mem_cons_self))
+      have hsmall : Small s := by simp only [Small, List.length_cons] at hb ⊢; omega
+      obtain ⟨s1, hstep, hinv, href⟩ := step_ok h hsmall op hv
+      rw [hsp, Option.some.injEq] at href
+      have hlen : s1.hs.length ≤ s.hs.length + 1 := by
+        have := spec_length hsp
+        rw [href] at this
+        simpa [abs] using this
+      obtain ⟨s', hrun, hinv', habs⟩ := ih s1 hinv
+        (by simp only [List.length_cons] at hb; omega)
+        (fun b hb' => hstr b (List.mem_cons_of_mem _ hb')) a (by rw [← href]; exact ha)
+      exact ⟨s', by simp [run, hstep, hrun], hinv', habs⟩
+
+/-- states the real interner can be in: reached from the empty pool by a well-typed history -/
+def Reachable (s : St) : Prop :=
+  ∃ ops a, ops.length + 3 ≤ REFCNT_MAX ∧ StrArgsOk ops ∧ Spec.run [] ops = some a ∧
+    run init ops = some s
+
+theorem reachable_inv {s : St} (h : Reachable s) : Inv s := by
+  obtain ⟨ops, a, hb, hstr, hsp, hrun⟩ := h
+  obtain ⟨s', hrun', hinv, _⟩ := run_refines ops init inv_init (by simpa [init] using hb) hstr a
+    (by simpa [abs, init] using hsp)
+  rw [hrun] at hrun'
+  exact (Option.some.inj hrun') ▸ hinv
+
+/-- C18.3 (`ptrEq_iff_contentsEq`): two live interned values are `==` (same address) exactly when
+    their contents are equal — whatever history produced them, whatever their static types. -/
+theorem ptrEq_iff_contentsEq {s : St} (h : Reachable s) {g1 g2 : Nat × Kind}
+    (h1 : g1 ∈ s.hs) (h2 : g2 ∈ s.hs) :
+    g1.1 = g2.1 ↔ (s.heap g1.1).data = (s.heap g2.1).data := by
+  have hi := reachable_inv h
+  exact ⟨fun e => by rw [e], fun e => hi.data_inj (hi.hs_pool _ h1) (hi.hs_pool _ h2) e⟩
+
+/-- C18.4 (`contents_stable` / history independence): after any history the contents and static
+    types of the live values are exactly those the reference semantics assigns — nothing a history
+    did (interning, dropping, casting other values, hand-over) altered a surviving value. -/
+theorem contents_stable (ops : List Op) (hb : ops.length + 3 ≤ REFCNT_MAX) (hstr : StrArgsOk ops)
+    (a : Spec.SSt) (hsp : Spec.run [] ops = some a) :
+    ∃ s, run init ops = some s ∧ abs s = a := by
+  obtain ⟨s, hrun, _, habs⟩ := run_refines ops init inv_init (by simpa [init] using hb) hstr a
+    (by simpa [abs, init] using hsp)
+  exact ⟨s, hrun, habs⟩
+
+/-- C18.5 (`dropped_leave_pool`): a pool entry exists only while some live value points at it, the
+    pool has one entry per distinct contents of the live values, and with no live value it is empty. -/
+theorem dropped_leave_pool {s : St} (h : Reachable s) :
+    (∀ p ∈ s.pool, ∃ g ∈ s.hs, g.1 = p) ∧
+    s.pool.length = (Spec.distinct ((abs s).map (·.1))).length ∧
+    (s.hs = [] → s.pool = []) := by
+  have hi := reachable_inv h
+  refine ⟨fun p hp => ?_, hi.pool_length, fun e => ?_⟩
+  · have := hi.has_handle p hp
+    simp only [cnt, List.countP_pos_iff, beq_iff_eq] at this
+    exact this
+  · have := hi.pool_length
+    simp only [abs, e, List.map_nil, Spec.distinct, List.length_nil] at this
+    exact List.eq_nil_of_length_eq_zero this
+
+/-- C18.6 (`no_double_free`, memory side): every live value points at a block that is not freed,
+    whose header count is the number of live values sharing it plus the pool's reference (so it is
+    never 0 while reachable), and every `IStr` points at valid UTF-8 (what `as_str_unchecked`
+    relies on). -/
+theorem live_values_safe {s : St} (h : Reachable s) {g : Nat × Kind} (hg : g ∈ s.hs) :
+    (s.heap g.1).live = true ∧ (s.heap g.1).rc = cnt s g.1 + 1 ∧ 2 ≤ (s.heap g.1).rc ∧
+    (g.2 = .str → validUtf8 (s.heap g.1).data = true) := by
+  have hi := reachable_inv h
+  have hp := hi.hs_pool g hg
+  have := hi.has_handle _ hp
+  refine ⟨hi.pool_live _ hp, hi.rc_eq _ hp, by have := hi.rc_eq _ hp; omega, fun e => ?_⟩
+  exact hi.utf8_ok _ hp (hi.str_utf8 g hg e)
+
+/-- C18.7 (`cast_preserves_identity` and everything else the harness can see): in every reachable
+    state, pool size and per value contents, type, reference count, `==` class and
+    "pool entry is this allocation" are functions of the client's view alone. -/
+theorem obs_eq_spec {s : St} (h : Reachable s) : obs s = Spec.obs (abs s) :=
+  (reachable_inv h).obs_eq
+
+/-- non-vacuity: a history with both types, a shared allocation, a failed and a successful
+    `cast_str`, a hand-over and drops to empty (the harness replays exactly this one first). -/
+def witness : List Op :=
+  [.internStr [97], .internBytes [97], .internBytes [255], .clone 0, .castStr 2, .castStr 1,
+   .drop 0, .handover, .drop 0, .drop 0]
+
+example : StrArgsOk witness := by
+  intro b hb
+  simp [witness] at hb
+  subst hb; decide
+
+example : Spec.run [] witness = some [] := by decide
+example : Spec.run [] (witness.take 6) = some [([97], .str), ([97], .str), ([97], .str)] := by decide
+example : witness.length + 3 ≤ REFCNT_MAX := by decide
+
+/-- the hypotheses of `contents_stable` are met by a non-trivial history: the coded protocol runs
+    it without panic and the three surviving values are the three `"a"` strings -/
+example : ∃ s, run init (witness.take 6) = some s ∧
+    abs s = [([97], .str), ([97], .str), ([97], .str)] :=
+  contents_stable _ (by decide)
+    (by intro b hb; simp [witness] at hb; subst hb; decide) _ (by decide)
+
+end JrsVerif.Intern
+
+namespace JrsVerif.TraceGraph
+open JrsVerif.Generated
+
+/-- C18.8 (`traceGraph_complete`, collector half, necessary condition only): every
+    `#[trace(skip)]` of the current source hides a type that is declared unable to own a `Cc`
+    (plain data, `'static`, foreign leaf types) or is a declared weak back reference.  The table is
+    re-extracted on every run, so a new skip on an owning field breaks this theorem. -/
+theorem traceGraph_complete : ∀ e ∈ traceSkips, skipOk e = true := by decide
+
+/-- non-vacuity: the table is not empty and contains the weak object back reference -/
+example : traceSkips.length ≥ 9 ∧ traceSkips.any (fun e => weakRef.contains e.2.2) = true := by decide
+
+end JrsVerif.TraceGraph
